@@ -64,6 +64,16 @@ func c12dEnum(yield func(interface{}) bool) {
 			return
 		}
 	}
+	// a caller that changed the classifier it got must not affect what DefaultClassifier returns afterwards
+	for i := 0; i < 6; i++ {
+		idx++
+		if idx%nshards != shard {
+			continue
+		}
+		if !yield(&c12dCase{Kind: "fresh-after-mutation", Idx: i * 67}) {
+			return
+		}
+	}
 }
 
 func c12dCheck(ci interface{}) lib.Outcome {
@@ -96,6 +106,25 @@ func c12dCheck(ci interface{}) lib.Outcome {
 	case "scen":
 		in = scenarios()[c.Idx%len(scenarios())]
 		desc = fmt.Sprintf("scenario %d", c.Idx)
+	case "fresh-after-mutation":
+		f := assets()[c.Idx%len(assets())]
+		d1, err := embedded.DefaultClassifier()
+		if err != nil {
+			return lib.Outcome{Violation: fmt.Sprintf("DefaultClassifier failed: %v", err)}
+		}
+		// override this document in the instance we were given, and add another one
+		d1.AddContent(f.Cat, f.Name, f.Variant, []byte("completely different words "+oovWords(c.Idx, 40, 8)))
+		d1.AddContent("License", "Injected-By-Caller", "license.txt", f.Content)
+		d2, err := embedded.DefaultClassifier()
+		if err != nil {
+			return lib.Outcome{Violation: fmt.Sprintf("DefaultClassifier failed: %v", err)}
+		}
+		in = []byte(oovWords(10, 5, 3) + string(f.Content) + "\n" + oovWords(40, 4, 0))
+		a, b := d2.Match(in), c12dLoaded.Match(in)
+		if resultString(a) != resultString(b) {
+			return lib.Outcome{Violation: fmt.Sprintf("after another caller modified the classifier it had obtained from DefaultClassifier, a new DefaultClassifier() no longer equals LoadLicenses(assets) on %s/%s/%s\nDefaultClassifier:\n%sLoadLicenses:\n%s", f.Cat, f.Name, f.Variant, fmtMatches(a), fmtMatches(b))}
+		}
+		return lib.Outcome{Nontrivial: true, Classes: []string{"fresh-instance-after-mutation"}, Sample: map[string]interface{}{"input": "DefaultClassifier after mutation of an earlier instance: " + f.Name}}
 	default:
 		return lib.Outcome{Skip: "malformed"}
 	}
